@@ -218,6 +218,7 @@ func (s *Sim) doRecv(t *Task, k *chanCore, site string) (any, bool) {
 		}
 		k.recvN++
 		s.event(t, "recv", k.id, site, "")
+		t.opSeq = s.seq
 		return it.v, true
 	}
 	if k.closed {
@@ -225,6 +226,7 @@ func (s *Sim) doRecv(t *Task, k *chanCore, site string) (any, bool) {
 			t.vc.join(k.closeVC)
 		}
 		s.event(t, "recv-closed", k.id, site, "")
+		t.opSeq = s.seq
 		return nil, false
 	}
 	ts, idx := s.partners(t, k, dirSend)
@@ -236,6 +238,7 @@ func (s *Sim) doRecv(t *Task, k *chanCore, site string) (any, bool) {
 	v := p.pend.cases[idx[j]].val
 	s.completePartner(t, p, idx[j], nil, false)
 	s.event(t, "recv-rdv", k.id, site, "")
+	t.opSeq, p.opSeq = s.seq, s.seq
 	return v, true
 }
 
@@ -255,6 +258,7 @@ func (s *Sim) doSend(t *Task, k *chanCore, v any, site string) {
 		k.sendN++
 		k.buf = append(k.buf, it)
 		s.event(t, "send", k.id, site, "")
+		t.opSeq = s.seq
 		return
 	}
 	ts, idx := s.partners(t, k, dirRecv)
@@ -264,6 +268,7 @@ func (s *Sim) doSend(t *Task, k *chanCore, v any, site string) {
 	j := s.ch.Choose("partner", len(ts))
 	s.completePartner(t, ts[j], idx[j], v, true)
 	s.event(t, "send-rdv", k.id, site, "")
+	t.opSeq, ts[j].opSeq = s.seq, s.seq
 }
 
 // completePartner finishes the parked task p's operation (case index i) as
